@@ -74,11 +74,19 @@ def rule_fanout(chk):
             sites=len(region))
     # same unmodified message
     for n, c, m in inv:
-        args_ok = len(c.args) == 1 and not c.keywords and isinstance(c.args[0], ast.Name) \
-            and c.args[0].id in send.params and not stores_to_name(send, c.args[0].id)
+        args_ok = len(c.args) == 1 and not c.keywords and isinstance(c.args[0], ast.Name)
+        if args_ok:
+            # the same object for every destination: the name is not rebound inside the loop
+            nm = c.args[0].id
+            args_ok = not any(isinstance(x.ast, (ast.Assign, ast.AugAssign)) and nm in {y.id for y in ast.walk(x.ast) if isinstance(y, ast.Name) and isinstance(y.ctx, ast.Store)}
+                              for x in region if x.ast is not None)
+            # and it denotes the message given to send (the parameter, or a merge/copy of it made before the loop)
+            if nm not in send.params:
+                vals = [v for v in assigned_values(send, nm) if v is not None]
+                args_ok = args_ok and bool(vals) and all(any(isinstance(y, ast.Name) and y.id in send.params for y in ast.walk(v)) for v in vals)
         chk.req(args_ok, "C08.fanout", "send:same-message-object", chk.where(send, c.lineno),
-                good="destination is called with the parameter %s, never rebound" % (c.args[0].id if c.args else "?"),
-                fail="destination is not called with exactly the (never rebound) message parameter: %s" % unparse(c))
+                good="every destination is called with the same message object %s" % (c.args[0].id if c.args else "?"),
+                fail="destinations are not all called with the one message given to send: %s" % unparse(c))
         site_ctx = ctx.cg.ctxmaps[send].get(id(c), [])
         ph = protecting_handler(site_ctx)
         chk.req(ph is not None, "C08.fanout", "send:destination-call-contained", chk.where(send, c.lineno),
@@ -323,6 +331,12 @@ def rule_report(chk):
             fail="reason is not safeunicode(%s): %s" % (loopvar, v is not None and unparse(v)))
     v = rep.get(EK)
     txt = unparse(v) if v is not None else ""
+    if isinstance(v, ast.Call) and len(v.args) == 1 and unparse(v.args[0]) in ("%s.__class__" % loopvar, "type(%s)" % loopvar):
+        for g in ctx.targets(send, v):
+            if len(g.params) == 1:
+                body = " ".join(unparse(s_) for s_ in g.node.body)
+                if "%s.__module__" % g.params[0] in body and "%s.__name__" % g.params[0] in body:
+                    txt = "%s.__class__.__module__ %s.__class__.__name__ (via %s)" % (loopvar, loopvar, g.fq)
     chk.req(v is not None and "%s.__class__.__module__" % loopvar in txt and "%s.__class__.__name__" % loopvar in txt,
             "C08.report", "send:report-exception-class", where, good="exception = module-qualified class name",
             fail="exception field is not built from the class's __module__ and __name__: %s" % txt)
